@@ -22,6 +22,7 @@ func init() {
 			ruleC14B5(r)
 			ruleC14B6(r)
 			ruleLoopDrivers(r, "B7", "the expiry sweep stays periodic: in the transports and the segment package every receive inside a loop from a time source is a Ticker, a time.After, or a Timer that is re-armed inside the loop when its branch continues the loop", func(fn *ssa.Function) bool { return strings.HasPrefix(fnPkgPath(fn), modPath+"/transport/") || fnPkgPath(fn) == modPath+"/internal/segment" }, 2)
+			ruleNoSwallowedErrors(r, "B8", 3, true, "/internal/segment", "/transport/quic", "/transport/webtransport")
 		},
 	})
 }
@@ -71,10 +72,18 @@ func headerAccesses(p *Prog, fn *ssa.Function, write bool) []hdrField {
 		}
 		role := ""
 		if write {
-			for _, l := range p.Leaves(args[2], provOpts{}) {
-				if strings.HasPrefix(l, "param:") {
-					role = l[strings.LastIndexByte(l, '#')+1:]
+			// the role of the written value is that of the parameter it comes from, determined by how the
+			// caller's loop feeds that parameter (not by the parameter's name)
+			v := args[2]
+			for {
+				if cv, ok := v.(*ssa.Convert); ok {
+					v = cv.X
+					continue
 				}
+				break
+			}
+			if prm, ok := v.(*ssa.Parameter); ok {
+				role = paramRole(p, fn, prm)
 			}
 		}
 		out = append(out, hdrField{lo: lo, hi: hi, width: width, role: role, pos: ins.Pos()})
@@ -600,4 +609,58 @@ func (p *Prog) callsInLoop(fn *ssa.Function, depth int, looped bool, names ...st
 		}
 	})
 	return found
+}
+
+// paramRole classifies a parameter of the segment writer by the argument its looping caller passes: the 32-bit
+// value is the message's sequence number; of the 16-bit values, the one that changes inside the caller's loop
+// (it derives from a phi of a loop block) is the segment index, the loop-invariant one the maximal index.
+func paramRole(p *Prog, fn *ssa.Function, prm *ssa.Parameter) string {
+	idx := -1
+	for i, q := range fn.Params {
+		if q == prm {
+			idx = i
+		}
+	}
+	if idx < 0 {
+		return ""
+	}
+	if b, ok := prm.Type().Underlying().(*types.Basic); ok && b.Kind() == types.Uint32 {
+		return "seqNum"
+	}
+	for _, site := range p.staticCallSites(fn) {
+		if !inLoop(site) {
+			continue
+		}
+		cc := instrCall(site)
+		if idx >= len(cc.Args) {
+			continue
+		}
+		loop := loopBlocks(site.Block())
+		varies := false
+		seen := map[ssa.Value]bool{}
+		var walk func(v ssa.Value)
+		walk = func(v ssa.Value) {
+			if v == nil || seen[v] {
+				return
+			}
+			seen[v] = true
+			if ph, ok := v.(*ssa.Phi); ok && loop[ph.Block()] {
+				varies = true
+				return
+			}
+			if ins, ok := v.(ssa.Instruction); ok {
+				for _, op := range ins.Operands(nil) {
+					if *op != nil {
+						walk(*op)
+					}
+				}
+			}
+		}
+		walk(cc.Args[idx])
+		if varies {
+			return "segIdx"
+		}
+		return "maxIdx"
+	}
+	return ""
 }
